@@ -128,6 +128,25 @@ def resolve_bad(root: Any, other: Any, op: dict) -> Bad:
         else:
             raise OPS.NotApplicable(p.kind)
         return b
+    if k == 'wholefield':
+        # model.raw_xs = other_model.raw_xs : the list still lives in the other model
+        dst = op['dst']
+        P = OPS.find_model(root, dst['cls'], dst['mi'], idx)
+        p = S.prop(P, dst['prop'])
+        srcdoc = other if op.get('src_other') else root
+        cands = [m for m in OPS.index_models(srcdoc).get(dst['cls'], []) if m is not P]
+        if not cands:
+            raise OPS.NotApplicable('no second model of the class')
+        Q = cands[op.get('sel', 0) % len(cands)]
+        w = getattr(Q, p.name)
+        st = w.repeated.token_store
+        if w.repeated.first_token is st.get_first() and w.repeated.last_token is st.get_last():
+            raise OPS.NotApplicable('the list spans its whole store (an empty file): a free node by the library\'s definition, not an attached one')
+        b.cls, b.must_raise, b.key = 'a:attached', True, f'attached:whole-field:{p.kind}'
+        b.what = f'{type(P).__name__}.{p.name} = the {p.name} of another {type(Q).__name__} (still attached there)'
+        b.nontrivial = len(w) > 0 or len(getattr(P, p.name)) > 0
+        b.call = lambda: setattr(P, p.name, w)
+        return b
     if k == 'metaval':
         # value-level meta assignment with an attached raw value
         P = OPS.find_model(root, op['cls'], op['mi'], idx)
@@ -253,6 +272,33 @@ def resolve_bad(root: Any, other: Any, op: dict) -> Bad:
     raise OPS.NotApplicable(k)
 
 
+def public_views(root: Any) -> list:
+    """What every list / view / mapping property of every model shows through the public getters (identities of nodes, values otherwise)."""
+    out = []
+    for cname, ms in sorted(OPS.index_models(root).items()):
+        for mi, m in enumerate(ms):
+            for p in S.props_of(m):
+                if p.kind not in ('list', 'clist', 'fview', 'rawmeta', 'meta', 'sview', 'cview'):
+                    continue
+                try:
+                    shown = [('node', id(x)) if isinstance(x, base.RawModel) else ('value', repr(x)) for x in getattr(m, p.name)]
+                except ArithmeticError:
+                    shown = ['unevaluable']
+                except Exception as e:  # noqa: BLE001
+                    shown = ['raised:' + type(e).__name__]
+                out.append(((cname, mi, p.name), shown))
+    return out
+
+
+def views_diff(a: list, b: list) -> Optional[str]:
+    if len(a) != len(b):
+        return f'{len(a)} views before, {len(b)} after'
+    for (k1, v1), (k2, v2) in zip(a, b):
+        if k1 != k2 or v1 != v2:
+            return f'{k1[0]}#{k1[1]}.{k1[2]} showed {len(v1)} entries {[x[0] for x in v1][:4]}, now shows {len(v2)} ({"same" if v1 == v2 else "different"} entries)'
+    return None
+
+
 def run_costform(case: dict) -> Result:
     """(e) every assignment to the cost group from every initial concrete form: whenever it raises, nothing may have changed."""
     from vf.props import c09
@@ -300,6 +346,7 @@ def run_case(case: dict) -> Result:
             except OPS.NotApplicable:
                 continue
             before, before2 = O.Snapshot(root), O.Snapshot(other)
+            vbefore = public_views(root) + public_views(other)
             raised: Optional[BaseException] = None
             try:
                 b.call()
@@ -314,6 +361,10 @@ def run_case(case: dict) -> Result:
                 d = before.diff(O.Snapshot(root)) or before2.diff(O.Snapshot(other))
                 if d:
                     res.bad(f'changed-after-refusal:{b.key}', f'{b.what} raised {raised!r} but the document changed: {d}')
+                else:
+                    vd = views_diff(vbefore, public_views(root) + public_views(other))
+                    if vd:
+                        res.bad(f'views-changed-after-refusal:{b.key}', f'{b.what} raised {raised!r} but what the models show changed: {vd}')
             elif b.must_raise:
                 bad = O.invariants(root) + O.invariants(other)
                 d1 = before2.diff(O.Snapshot(other))
@@ -383,6 +434,8 @@ def _gen_bad(g: L.G, root: Any) -> Optional[dict]:
         m, p, cname, mi = inst[g.n(0, len(inst) - 1)]
         dst: dict = {'cls': cname, 'mi': mi, 'prop': p.name}
         nfresh = 0
+        if p.kind in ('list', 'clist') and g.p(0.15):
+            return {'f': 'bad', 'k': 'wholefield', 'dst': dst, 'sel': g.n(0, 50), 'src_other': g.p(0.4)}
         if p.kind in ('list', 'clist', 'fview', 'rawmeta'):
             n = len(getattr(m, p.name))
             name = g.pick(['append', 'insert', 'set', 'setslice', 'setslice', 'setext', 'extend', 'extend', 'iadd'] + (['mapset'] if p.kind == 'rawmeta' else []))
@@ -500,6 +553,10 @@ def _enum_attached():
             if count[key] >= 2:
                 continue
             count[key] += 1
+            if p.kind in ('list', 'clist'):
+                for src_other in (False, True):
+                    yield {'dirs': chunks + chunks, 'dirs2': chunks, 'ops': [{'f': 'bad', 'k': 'wholefield', 'dst': {'cls': cname, 'mi': mi, 'prop': p.name},
+                                                                               'sel': count[key], 'src_other': src_other}]}
             for v in variants:
                 nfresh = 1 if v.get('op') in ('setslice', 'extend') else 0
                 yield {'dirs': chunks, 'dirs2': chunks, 'ops': [{'f': 'bad', 'k': 'attached', 'dst': {'cls': cname, 'mi': mi, 'prop': p.name, **v}, 'sel': count[key] * 7,
